@@ -201,6 +201,7 @@ func Send[T any](ch chan<- T, v T, site string) {
 		return
 	}
 	s.event(evSend, op.Obj, true)
+	s.hbRelease(op.Obj)
 	ch <- v // cannot block: len<cap (or panics: closed)
 }
 
@@ -245,6 +246,7 @@ func Recv2[T any](ch <-chan T, site string) (T, bool) {
 		return val.(T), true
 	}
 	s.event(evRecv, op.Obj, true)
+	s.hbAcquire(op.Obj)
 	v, ok := <-ch
 	return v, ok
 }
